@@ -1,5 +1,6 @@
 import MicroHttp.Props.C10
 import MicroHttp.Props.Tables
+import MicroHttp.Props.C10History
 #print axioms MicroHttp.C10.inv_new
 #print axioms MicroHttp.C10.requests_inv
 #print axioms MicroHttp.C10.respond_inv
@@ -13,3 +14,7 @@ import MicroHttp.Props.Tables
 #print axioms MicroHttp.Tables.max_connections
 #print axioms MicroHttp.Tables.capacity_test_is_equality
 #print axioms MicroHttp.Tables.server_full_message
+#print axioms MicroHttp.C10.respondMany_inv
+#print axioms MicroHttp.C10.step_inv
+#print axioms MicroHttp.C10.history_inv
+#print axioms MicroHttp.C10.reachable
